@@ -2,8 +2,10 @@ package gen
 
 import (
 	"fmt"
+	"strings"
 
 	"0chain.net/chaincore/transaction"
+	"0chain.net/core/common"
 
 	"verif/sim"
 	"verif/worlds/ledger"
@@ -16,6 +18,7 @@ type RaceReport struct {
 	Validations int // ValidateTransactions calls
 	Failed      int // of which returned an error (a batch cancelled the others)
 	Batches     int // validation goroutines of the largest block
+	Txns        int // transactions of the largest block
 }
 
 // RaceWorkload is the C44 sub-target "parallel transaction-batch validation"
@@ -48,14 +51,16 @@ func RaceWorkload(seed uint64) (*RaceReport, error) {
 	r := ledger.NewRunner(w)
 	r.Plan = p
 	g := newG(w, r)
+	w.Now = common.Now() // no bubble: the node reads the real clock
 	rep := &RaceReport{}
 	rounds := rng.Range(2, 4)
 	for rn := int64(1); rn <= int64(rounds); rn++ {
 		for c := 0; c < 3; c++ {
 			g.opFlood(sim.Step{Op: "flood", A: c, I: []int64{int64(rng.Range(3, 7)), 2}})
 		}
-		o := roundOpts{gen: int(rn) % 3, twin: -1}
-		o.ver = (o.gen + 1) % 3
+		// one identity only: outside a bubble there is no quiescence point at which the process
+		// globals could be re-pointed without racing with the node's own goroutines
+		o := roundOpts{gen: 0, ver: 1, twin: -1}
 		c := g.generate(o, rn, o.gen)
 		if c == nil {
 			return rep, fmt.Errorf("round %d: no block", rn)
@@ -66,9 +71,10 @@ func RaceWorkload(seed uint64) (*RaceReport, error) {
 		if nb > rep.Batches {
 			rep.Batches = nb
 		}
-		vmc := g.become(g.Ver.C, o.ver)
-		g.roundOn(vmc, rn)
-		vmc.SetCurrentRound(rn)
+		vmc := g.become(w.C, o.gen)
+		if n > rep.Txns {
+			rep.Txns = n
+		}
 		for kind := 0; kind < 5; kind++ {
 			cp, err := wireBlock(c.sentB, kind%2 == 1)
 			if err != nil {
@@ -96,11 +102,12 @@ func RaceWorkload(seed uint64) (*RaceReport, error) {
 				return rep, fmt.Errorf("round %d: honest block fails ValidateTransactions: %v", rn, err)
 			}
 		}
-		g.verify(o, rn, c)
-		if !c.ok {
-			return rep, fmt.Errorf("round %d: block not verified: %v", rn, tr.Viol)
+		if c.blockViol {
+			return rep, fmt.Errorf("round %d: block violates C45: %v", rn, tr.Viol)
 		}
-		g.adopt(o, rn, c)
+		vmc.AddNotarizedBlock(g.roundOn(vmc, rn), c.b)
+		g.head = c.b
+		w.Head = c.b
 	}
 	return rep, nil
 }
@@ -118,4 +125,53 @@ func tamper(t *transaction.Transaction, kind int) {
 		t.TransactionData += " "
 		t.Hash = t.ComputeHash()
 	}
+}
+
+// RacePair is one report of the race detector reduced to the two accesses.
+type RacePair struct {
+	A, B string // "Read at .../protocol_block.go:523", "Previous write at .../protocol_block.go:532"
+}
+
+// RaceBuildArgv is the command that builds the -race driver of RaceWorkload
+// (run it in /verif with the usual GOFLAGS/GOPROXY/GOWORK environment).
+func RaceBuildArgv(goBin, out string) []string {
+	return []string{goBin, "test", "-race", "-c", "-tags", "verif", "-o", out, "./worlds/ledger/gen/racecmd"}
+}
+
+// RaceRunArgv runs n seeds starting at base; set GORACE=halt_on_error=0 (and
+// GEN_RACE_BASE / GEN_RACE_SEEDS, returned as env) and read the reports from stderr.
+func RaceRunArgv(bin string, base uint64, n int) (argv []string, env []string) {
+	return []string{bin, "-test.run", "TestValidateTransactionsRace", "-test.v"},
+		[]string{fmt.Sprintf("GEN_RACE_BASE=%d", base), fmt.Sprintf("GEN_RACE_SEEDS=%d", n), "GORACE=halt_on_error=0", "GODEBUG=asynctimerchan=0"}
+}
+
+// ParseRaceReports extracts, from the race detector's output, the first source
+// location of each of the two conflicting accesses of every report.
+func ParseRaceReports(out string) []RacePair {
+	var res []RacePair
+	lines := strings.Split(out, "\n")
+	for i := 0; i < len(lines); i++ {
+		if !strings.HasPrefix(lines[i], "WARNING: DATA RACE") {
+			continue
+		}
+		var acc []string
+		for j := i + 1; j < len(lines) && !strings.HasPrefix(lines[j], "=================="); j++ {
+			l := lines[j]
+			if strings.HasPrefix(l, "Read at") || strings.HasPrefix(l, "Write at") || strings.HasPrefix(l, "Previous read at") || strings.HasPrefix(l, "Previous write at") {
+				kind := l[:strings.Index(l, " at ")]
+				// the location is on the second line after the header: "      /path/file.go:NN +0x.."
+				if j+2 < len(lines) {
+					loc := strings.TrimSpace(lines[j+2])
+					if k := strings.Index(loc, " "); k > 0 {
+						loc = loc[:k]
+					}
+					acc = append(acc, kind+" "+loc)
+				}
+			}
+		}
+		if len(acc) >= 2 {
+			res = append(res, RacePair{A: acc[0], B: acc[1]})
+		}
+	}
+	return res
 }
